@@ -41,22 +41,91 @@ theorem active_iff_max {c : Cache} {q : Int} : Active c q ↔ inRange (c.stat q)
   · intro h; exact ⟨h.1, by omega, by omega⟩
   · intro h; exact ⟨h.1, by omega⟩
 
+/-- a position the inner loop hands to the look-up: inside the statistics window, or (since ed2772e) the first
+    sub-page number of the window in walking direction.  With `subno_min <= subno_max` both are inside the window. -/
+def Landed (st : Stat) (s : Int) : Prop :=
+  st.nSub ≠ 0 ∧ (inRange st s = true ∨ s = (st.subMin.toNat : Int) ∨ s = (st.subMax.toNat : Int))
+
+theorem landed_bounds {st : Stat} {s : Int} (h : Landed st s) : 0 ≤ s ∧ s ≤ 0xFFFF := by
+  obtain ⟨_, h | h | h⟩ := h
+  · exact inRange_bounds h
+  · have := st.subMin.toNat_lt; omega
+  · have := st.subMax.toNat_lt; omega
+
+theorem landed_of_inRange {st : Stat} {s : Int} (h : inRange st s = true) : Landed st s :=
+  ⟨((inRange_iff _ _).mp h).1, Or.inl h⟩
+
+theorem landed_inRange {st : Stat} {s : Int} (hmm : st.subMin.toNat ≤ st.subMax.toNat) (h : Landed st s) :
+    inRange st s = true := by
+  obtain ⟨h0, h | h | h⟩ := h
+  · exact h
+  · rw [inRange_iff]; exact ⟨h0, by omega, by omega⟩
+  · rw [inRange_iff]; exact ⟨h0, by omega, by omega⟩
+
+/-- the forward inner loop moves on to the next page number: nothing cached under this number, or the position
+    is behind the window (a position before the window is clamped to `subno_min` instead) -/
+def LeaveF (c : Cache) (p s : Int) : Prop :=
+  (c.stat p).nSub = 0 ∨ (((c.stat p).subMin.toNat : Int) ≤ s ∧ ((c.stat p).subMax.toNat : Int) < s)
+
+/-- mirror image for the backward loop -/
+def LeaveB (c : Cache) (p s : Int) : Prop :=
+  (c.stat p).nSub = 0 ∨ (s ≤ ((c.stat p).subMax.toNat : Int) ∧ s < ((c.stat p).subMin.toNat : Int))
+
+theorem leaveF_min_not_active {c : Cache} {q : Int} (h : LeaveF c q (c.stat q).subMin.toNat) : ¬ Active c q := by
+  unfold Active; rcases h with h | h
+  · intro ha; exact ha.1 h
+  · intro ha; omega
+
+theorem leaveB_max_not_active {c : Cache} {q : Int} (h : LeaveB c q (c.stat q).subMax.toNat) : ¬ Active c q := by
+  unfold Active; rcases h with h | h
+  · intro ha; exact ha.1 h
+  · intro ha; omega
+
+theorem leaveF_not_inRange {c : Cache} {p s : Int} (h : LeaveF c p s) : inRange (c.stat p) s = false := by
+  cases hin : inRange (c.stat p) s with
+  | false => rfl
+  | true => rw [inRange_iff] at hin; rcases h with h | h
+            · exact absurd h hin.1
+            · omega
+
+theorem leaveB_not_inRange {c : Cache} {p s : Int} (h : LeaveB c p s) : inRange (c.stat p) s = false := by
+  cases hin : inRange (c.stat p) s with
+  | false => rfl
+  | true => rw [inRange_iff] at hin; rcases h with h | h
+            · exact absurd h hin.1
+            · omega
+
 /-! ## forward direction -/
 
 /-- what the inner loop returns, forward -/
 def SkipSpecF (c : Cache) (p s : Int) (w : Bool) : Option (Int × Int × Bool) → Prop
   | none =>
-      inRange (c.stat p) s = false ∧ (∀ q, p < q → q ≤ 0x8FF → ¬ Active c q) ∧
+      LeaveF c p s ∧ (∀ q, p < q → q ≤ 0x8FF → ¬ Active c q) ∧
       (w = false → ∀ q, 0x100 ≤ q → q ≤ 0x8FF → ¬ Active c q)
   | some (p', s', w') =>
-      PgOk p' ∧ inRange (c.stat p') s' = true ∧
-      ((w' = w ∧ p' = p ∧ s' = s) ∨
-       (inRange (c.stat p) s = false ∧ w' = w ∧ p < p' ∧ s' = (c.stat p').subMin.toNat ∧
+      PgOk p' ∧ Landed (c.stat p') s' ∧
+      ((w' = w ∧ p' = p ∧ s' = s ∧ inRange (c.stat p) s = true) ∨
+       (w' = w ∧ p' = p ∧ (c.stat p).nSub ≠ 0 ∧ s < ((c.stat p).subMin.toNat : Int) ∧
+          s' = ((c.stat p).subMin.toNat : Int)) ∨
+       (LeaveF c p s ∧ w' = w ∧ p < p' ∧ s' = (c.stat p').subMin.toNat ∧ inRange (c.stat p') s' = true ∧
           ∀ q, p < q → q < p' → ¬ Active c q) ∨
-       (inRange (c.stat p) s = false ∧ w = false ∧ w' = true ∧ s' = (c.stat p').subMin.toNat ∧
+       (LeaveF c p s ∧ w = false ∧ w' = true ∧ s' = (c.stat p').subMin.toNat ∧ inRange (c.stat p') s' = true ∧
           (∀ q, p < q → q ≤ 0x8FF → ¬ Active c q) ∧ ∀ q, 0x100 ≤ q → q < p' → ¬ Active c q))
 
 def skipMeasF (p : Int) (w : Bool) : Nat := (if w then 0 else 0x800) + (0x8FF - p).toNat
+
+/-- one unfolding of `skip`, forward, when the position is neither inside the window nor clamped -/
+theorem skip_fwd_step (c : Cache) (n : Nat) (p s : Int) (w : Bool) :
+    skip c 1 (n + 1) p s w =
+      if inRange (c.stat p) s then some (some (p, s, w))
+      else if (c.stat p).nSub ≠ 0 ∧ s < ((c.stat p).subMin.toNat : Int) then
+        some (some (p, ((c.stat p).subMin.toNat : Int), w))
+      else if p + 1 > 0x8FF then
+        (if w then some none else skip c 1 n 0x100 (c.stat 0x100).subMin.toNat true)
+      else skip c 1 n (p + 1) (c.stat (p + 1)).subMin.toNat w := by
+  rw [skip]
+  simp only [show ((1 : Int) > 0) by decide, show ¬ ((1 : Int) < 0) by decide, true_and, false_and, and_false,
+    if_false]
 
 theorem skip_fwd_spec (c : Cache) : ∀ (n : Nat) (p s : Int) (w : Bool), PgOk p → skipMeasF p w < n →
     ∃ r, skip c 1 n p s w = some r ∧ SkipSpecF c p s w r := by
@@ -65,80 +134,96 @@ theorem skip_fwd_spec (c : Cache) : ∀ (n : Nat) (p s : Int) (w : Bool), PgOk p
   | zero => intro p s w _ h; omega
   | succ n ih =>
     intro p s w hp hm
-    unfold skip
+    rw [skip_fwd_step]
     by_cases hin : inRange (c.stat p) s = true
     · simp only [hin, if_true]
-      exact ⟨_, rfl, hp, hin, Or.inl ⟨rfl, rfl, rfl⟩⟩
+      exact ⟨_, rfl, hp, landed_of_inRange hin, Or.inl ⟨rfl, rfl, rfl, hin⟩⟩
     · have hin' : inRange (c.stat p) s = false := by simpa using hin
-      simp only [hin', show ¬ ((1 : Int) < 0) by decide, if_false, Bool.false_eq_true]
-      unfold PgOk at hp
-      by_cases hlast : p + 1 > 0x8FF
-      · simp only [hlast, if_true]
-        have hp8 : p = 0x8FF := by omega
-        cases w with
-        | true =>
-          simp only [if_true]
-          refine ⟨none, rfl, hin', ?_, ?_⟩
-          · intro q h1 h2; omega
-          · intro h; cases h
-        | false =>
-          simp only [Bool.false_eq_true, if_false]
-          have hm' : skipMeasF 0x100 true < n := by unfold skipMeasF at *; simp at *; omega
-          obtain ⟨r, hr, hs⟩ := ih 0x100 ((c.stat 0x100).subMin.toNat) true ⟨by decide, by decide⟩ hm'
+      simp only [hin', Bool.false_eq_true, if_false]
+      by_cases hcl : (c.stat p).nSub ≠ 0 ∧ s < ((c.stat p).subMin.toNat : Int)
+      · rw [if_pos hcl]
+        exact ⟨_, rfl, hp, ⟨hcl.1, Or.inr (Or.inl rfl)⟩, Or.inr (Or.inl ⟨rfl, rfl, hcl.1, hcl.2, rfl⟩)⟩
+      · rw [if_neg hcl]
+        have hlv : LeaveF c p s := by
+          unfold LeaveF
+          by_cases h0 : (c.stat p).nSub = 0
+          · left; exact h0
+          · right
+            have h1 : ¬ (s < ((c.stat p).subMin.toNat : Int)) := fun h => hcl ⟨h0, h⟩
+            have h2 : ¬ (((c.stat p).subMin.toNat : Int) ≤ s ∧ s ≤ ((c.stat p).subMax.toNat : Int)) := by
+              intro h; rw [(inRange_iff _ _).mpr ⟨h0, h.1, h.2⟩] at hin'; cases hin'
+            omega
+        unfold PgOk at hp
+        by_cases hlast : p + 1 > 0x8FF
+        · simp only [hlast, if_true]
+          have hp8 : p = 0x8FF := by omega
+          cases w with
+          | true =>
+            simp only [if_true]
+            refine ⟨none, rfl, hlv, ?_, ?_⟩
+            · intro q h1 h2; omega
+            · intro h; cases h
+          | false =>
+            simp only [Bool.false_eq_true, if_false]
+            have hm' : skipMeasF 0x100 true < n := by unfold skipMeasF at *; simp at *; omega
+            obtain ⟨r, hr, hs⟩ := ih 0x100 ((c.stat 0x100).subMin.toNat) true ⟨by decide, by decide⟩ hm'
+            refine ⟨r, hr, ?_⟩
+            cases r with
+            | none =>
+              obtain ⟨h0, h1, _⟩ := hs
+              refine ⟨hlv, ?_, ?_⟩
+              · intro q h1 h2; omega
+              · intro _ q hq1 hq2
+                by_cases hq : q = 0x100
+                · subst hq; exact leaveF_min_not_active h0
+                · exact h1 q (by omega) hq2
+            | some t =>
+              obtain ⟨p', s', w'⟩ := t
+              obtain ⟨hp', hld, hd⟩ := hs
+              refine ⟨hp', hld, Or.inr (Or.inr (Or.inr ?_))⟩
+              rcases hd with ⟨hw, hpp, hss, hir⟩ | ⟨_, _, _, hlt, _⟩ | ⟨h0, hw, hlt, hss, hir, hno⟩ | ⟨_, hw, _⟩
+              · refine ⟨hlv, rfl, hw, by rw [hpp]; exact hss, by rw [hpp, hss]; exact hir, ?_, ?_⟩
+                · intro q h1 h2; omega
+                · intro q h1 h2; omega
+              · omega
+              · refine ⟨hlv, rfl, hw, hss, hir, ?_, ?_⟩
+                · intro q h1 h2; omega
+                · intro q hq1 hq2
+                  by_cases hq : q = 0x100
+                  · subst hq; exact leaveF_min_not_active h0
+                  · exact hno q (by omega) hq2
+              · cases hw
+        · simp only [hlast, if_false]
+          have hm' : skipMeasF (p + 1) w < n := by unfold skipMeasF at *; omega
+          obtain ⟨r, hr, hs⟩ := ih (p + 1) ((c.stat (p + 1)).subMin.toNat) w ⟨by omega, by omega⟩ hm'
           refine ⟨r, hr, ?_⟩
           cases r with
           | none =>
-            obtain ⟨h0, h1, _⟩ := hs
-            refine ⟨hin', ?_, ?_⟩
-            · intro q h1 h2; omega
-            · intro _ q hq1 hq2
-              by_cases hq : q = 0x100
-              · subst hq; rw [active_iff_min]; simp [h0]
-              · exact h1 q (by omega) hq2
+            obtain ⟨h0, h1, h2⟩ := hs
+            refine ⟨hlv, ?_, h2⟩
+            intro q hq1 hq2
+            by_cases hq : q = p + 1
+            · subst hq; exact leaveF_min_not_active h0
+            · exact h1 q (by omega) hq2
           | some t =>
             obtain ⟨p', s', w'⟩ := t
-            obtain ⟨hp', hin2, hd⟩ := hs
-            refine ⟨hp', hin2, Or.inr (Or.inr ?_)⟩
-            rcases hd with ⟨hw, hpp, hss⟩ | ⟨h0, hw, hlt, hss, hno⟩ | ⟨_, hw, _⟩
-            · refine ⟨hin', rfl, hw, by rw [hpp]; exact hss, ?_, ?_⟩
-              · intro q h1 h2; omega
-              · intro q h1 h2; omega
-            · refine ⟨hin', rfl, hw, hss, ?_, ?_⟩
-              · intro q h1 h2; omega
-              · intro q hq1 hq2
-                by_cases hq : q = 0x100
-                · subst hq; rw [active_iff_min]; simp [h0]
-                · exact hno q (by omega) hq2
-            · cases hw
-      · simp only [hlast, if_false]
-        have hm' : skipMeasF (p + 1) w < n := by unfold skipMeasF at *; omega
-        obtain ⟨r, hr, hs⟩ := ih (p + 1) ((c.stat (p + 1)).subMin.toNat) w ⟨by omega, by omega⟩ hm'
-        refine ⟨r, hr, ?_⟩
-        cases r with
-        | none =>
-          obtain ⟨h0, h1, h2⟩ := hs
-          refine ⟨hin', ?_, h2⟩
-          intro q hq1 hq2
-          by_cases hq : q = p + 1
-          · subst hq; rw [active_iff_min]; simp [h0]
-          · exact h1 q (by omega) hq2
-        | some t =>
-          obtain ⟨p', s', w'⟩ := t
-          obtain ⟨hp', hin2, hd⟩ := hs
-          refine ⟨hp', hin2, ?_⟩
-          rcases hd with ⟨hw, hpp, hss⟩ | ⟨h0, hw, hlt, hss, hno⟩ | ⟨h0, hw, hw', hss, hno1, hno2⟩
-          · refine Or.inr (Or.inl ⟨hin', hw, by omega, by rw [hpp]; exact hss, ?_⟩)
-            intro q h1 h2; omega
-          · refine Or.inr (Or.inl ⟨hin', hw, by omega, hss, ?_⟩)
-            intro q hq1 hq2
-            by_cases hq : q = p + 1
-            · subst hq; rw [active_iff_min]; simp [h0]
-            · exact hno q (by omega) hq2
-          · refine Or.inr (Or.inr ⟨hin', hw, hw', hss, ?_, hno2⟩)
-            intro q hq1 hq2
-            by_cases hq : q = p + 1
-            · subst hq; rw [active_iff_min]; simp [h0]
-            · exact hno1 q (by omega) hq2
+            obtain ⟨hp', hld, hd⟩ := hs
+            refine ⟨hp', hld, ?_⟩
+            rcases hd with ⟨hw, hpp, hss, hir⟩ | ⟨_, _, _, hlt, _⟩ | ⟨h0, hw, hlt, hss, hir, hno⟩ |
+                ⟨h0, hw, hw', hss, hir, hno1, hno2⟩
+            · refine Or.inr (Or.inr (Or.inl ⟨hlv, hw, by omega, by rw [hpp]; exact hss, by rw [hpp, hss]; exact hir, ?_⟩))
+              intro q h1 h2; omega
+            · omega
+            · refine Or.inr (Or.inr (Or.inl ⟨hlv, hw, by omega, hss, hir, ?_⟩))
+              intro q hq1 hq2
+              by_cases hq : q = p + 1
+              · subst hq; exact leaveF_min_not_active h0
+              · exact hno q (by omega) hq2
+            · refine Or.inr (Or.inr (Or.inr ⟨hlv, hw, hw', hss, hir, ?_, hno2⟩))
+              intro q hq1 hq2
+              by_cases hq : q = p + 1
+              · subst hq; exact leaveF_min_not_active h0
+              · exact hno1 q (by omega) hq2
 
 theorem skipMeasF_lt {p : Int} (hp : PgOk p) (w : Bool) : skipMeasF p w < skipFuel := by
   unfold skipMeasF skipFuel PgOk at *
@@ -149,17 +234,32 @@ theorem skipMeasF_lt {p : Int} (hp : PgOk p) (w : Bool) : skipMeasF p w < skipFu
 /-- what the inner loop returns, backward -/
 def SkipSpecB (c : Cache) (p s : Int) (w : Bool) : Option (Int × Int × Bool) → Prop
   | none =>
-      inRange (c.stat p) s = false ∧ (∀ q, 0x100 ≤ q → q < p → ¬ Active c q) ∧
+      LeaveB c p s ∧ (∀ q, 0x100 ≤ q → q < p → ¬ Active c q) ∧
       (w = false → ∀ q, 0x100 ≤ q → q ≤ 0x8FF → ¬ Active c q)
   | some (p', s', w') =>
-      PgOk p' ∧ inRange (c.stat p') s' = true ∧
-      ((w' = w ∧ p' = p ∧ s' = s) ∨
-       (inRange (c.stat p) s = false ∧ w' = w ∧ p' < p ∧ s' = (c.stat p').subMax.toNat ∧
+      PgOk p' ∧ Landed (c.stat p') s' ∧
+      ((w' = w ∧ p' = p ∧ s' = s ∧ inRange (c.stat p) s = true) ∨
+       (w' = w ∧ p' = p ∧ (c.stat p).nSub ≠ 0 ∧ s > ((c.stat p).subMax.toNat : Int) ∧
+          s' = ((c.stat p).subMax.toNat : Int)) ∨
+       (LeaveB c p s ∧ w' = w ∧ p' < p ∧ s' = (c.stat p').subMax.toNat ∧ inRange (c.stat p') s' = true ∧
           ∀ q, p' < q → q < p → ¬ Active c q) ∨
-       (inRange (c.stat p) s = false ∧ w = false ∧ w' = true ∧ s' = (c.stat p').subMax.toNat ∧
+       (LeaveB c p s ∧ w = false ∧ w' = true ∧ s' = (c.stat p').subMax.toNat ∧ inRange (c.stat p') s' = true ∧
           (∀ q, 0x100 ≤ q → q < p → ¬ Active c q) ∧ ∀ q, p' < q → q ≤ 0x8FF → ¬ Active c q))
 
 def skipMeasB (p : Int) (w : Bool) : Nat := (if w then 0 else 0x800) + (p - 0x100).toNat
+
+/-- one unfolding of `skip`, backward -/
+theorem skip_bwd_step (c : Cache) (n : Nat) (p s : Int) (w : Bool) :
+    skip c (-1) (n + 1) p s w =
+      if inRange (c.stat p) s then some (some (p, s, w))
+      else if (c.stat p).nSub ≠ 0 ∧ s > ((c.stat p).subMax.toNat : Int) then
+        some (some (p, ((c.stat p).subMax.toNat : Int), w))
+      else if p - 1 < 0x100 then
+        (if w then some none else skip c (-1) n 0x8FF (c.stat 0x8FF).subMax.toNat true)
+      else skip c (-1) n (p - 1) (c.stat (p - 1)).subMax.toNat w := by
+  rw [skip]
+  simp only [show ¬ ((-1 : Int) > 0) by decide, show ((-1 : Int) < 0) by decide, true_and, false_and, and_false,
+    if_false, if_true]
 
 theorem skip_bwd_spec (c : Cache) : ∀ (n : Nat) (p s : Int) (w : Bool), PgOk p → skipMeasB p w < n →
     ∃ r, skip c (-1) n p s w = some r ∧ SkipSpecB c p s w r := by
@@ -168,84 +268,99 @@ theorem skip_bwd_spec (c : Cache) : ∀ (n : Nat) (p s : Int) (w : Bool), PgOk p
   | zero => intro p s w _ h; omega
   | succ n ih =>
     intro p s w hp hm
-    unfold skip
+    rw [skip_bwd_step]
     by_cases hin : inRange (c.stat p) s = true
     · simp only [hin, if_true]
-      exact ⟨_, rfl, hp, hin, Or.inl ⟨rfl, rfl, rfl⟩⟩
+      exact ⟨_, rfl, hp, landed_of_inRange hin, Or.inl ⟨rfl, rfl, rfl, hin⟩⟩
     · have hin' : inRange (c.stat p) s = false := by simpa using hin
-      simp only [hin', show ((-1 : Int) < 0) by decide, if_true, Bool.false_eq_true, if_false]
-      unfold PgOk at hp
-      by_cases hlast : p - 1 < 0x100
-      · simp only [hlast, if_true]
-        have hp8 : p = 0x100 := by omega
-        cases w with
-        | true =>
-          simp only [if_true]
-          refine ⟨none, rfl, hin', ?_, ?_⟩
-          · intro q h1 h2; omega
-          · intro h; cases h
-        | false =>
-          simp only [Bool.false_eq_true, if_false]
-          have hm' : skipMeasB 0x8FF true < n := by unfold skipMeasB at *; simp at *; omega
-          obtain ⟨r, hr, hs⟩ := ih 0x8FF ((c.stat 0x8FF).subMax.toNat) true ⟨by decide, by decide⟩ hm'
+      simp only [hin', Bool.false_eq_true, if_false]
+      by_cases hcl : (c.stat p).nSub ≠ 0 ∧ s > ((c.stat p).subMax.toNat : Int)
+      · rw [if_pos hcl]
+        exact ⟨_, rfl, hp, ⟨hcl.1, Or.inr (Or.inr rfl)⟩, Or.inr (Or.inl ⟨rfl, rfl, hcl.1, hcl.2, rfl⟩)⟩
+      · rw [if_neg hcl]
+        have hlv : LeaveB c p s := by
+          unfold LeaveB
+          by_cases h0 : (c.stat p).nSub = 0
+          · left; exact h0
+          · right
+            have h1 : ¬ (s > ((c.stat p).subMax.toNat : Int)) := fun h => hcl ⟨h0, h⟩
+            have h2 : ¬ (((c.stat p).subMin.toNat : Int) ≤ s ∧ s ≤ ((c.stat p).subMax.toNat : Int)) := by
+              intro h; rw [(inRange_iff _ _).mpr ⟨h0, h.1, h.2⟩] at hin'; cases hin'
+            omega
+        unfold PgOk at hp
+        by_cases hlast : p - 1 < 0x100
+        · simp only [hlast, if_true]
+          have hp8 : p = 0x100 := by omega
+          cases w with
+          | true =>
+            simp only [if_true]
+            refine ⟨none, rfl, hlv, ?_, ?_⟩
+            · intro q h1 h2; omega
+            · intro h; cases h
+          | false =>
+            simp only [Bool.false_eq_true, if_false]
+            have hm' : skipMeasB 0x8FF true < n := by unfold skipMeasB at *; simp at *; omega
+            obtain ⟨r, hr, hs⟩ := ih 0x8FF ((c.stat 0x8FF).subMax.toNat) true ⟨by decide, by decide⟩ hm'
+            refine ⟨r, hr, ?_⟩
+            cases r with
+            | none =>
+              obtain ⟨h0, h1, _⟩ := hs
+              refine ⟨hlv, ?_, ?_⟩
+              · intro q h1 h2; omega
+              · intro _ q hq1 hq2
+                by_cases hq : q = 0x8FF
+                · subst hq; exact leaveB_max_not_active h0
+                · exact h1 q hq1 (by omega)
+            | some t =>
+              obtain ⟨p', s', w'⟩ := t
+              obtain ⟨hp', hld, hd⟩ := hs
+              refine ⟨hp', hld, Or.inr (Or.inr (Or.inr ?_))⟩
+              rcases hd with ⟨hw, hpp, hss, hir⟩ | ⟨_, _, _, hlt, _⟩ | ⟨h0, hw, hlt, hss, hir, hno⟩ | ⟨_, hw, _⟩
+              · refine ⟨hlv, rfl, hw, by rw [hpp]; exact hss, by rw [hpp, hss]; exact hir, ?_, ?_⟩
+                · intro q h1 h2; omega
+                · intro q h1 h2; omega
+              · omega
+              · refine ⟨hlv, rfl, hw, hss, hir, ?_, ?_⟩
+                · intro q h1 h2; omega
+                · intro q hq1 hq2
+                  by_cases hq : q = 0x8FF
+                  · subst hq; exact leaveB_max_not_active h0
+                  · exact hno q hq1 (by omega)
+              · cases hw
+        · simp only [hlast, if_false]
+          have hm' : skipMeasB (p - 1) w < n := by unfold skipMeasB at *; omega
+          obtain ⟨r, hr, hs⟩ := ih (p - 1) ((c.stat (p - 1)).subMax.toNat) w ⟨by omega, by omega⟩ hm'
           refine ⟨r, hr, ?_⟩
           cases r with
           | none =>
-            obtain ⟨h0, h1, _⟩ := hs
-            refine ⟨hin', ?_, ?_⟩
-            · intro q h1 h2; omega
-            · intro _ q hq1 hq2
-              by_cases hq : q = 0x8FF
-              · subst hq; rw [active_iff_max]; simp [h0]
-              · exact h1 q (by omega) (by omega)
+            obtain ⟨h0, h1, h2⟩ := hs
+            refine ⟨hlv, ?_, h2⟩
+            intro q hq1 hq2
+            by_cases hq : q = p - 1
+            · subst hq; exact leaveB_max_not_active h0
+            · exact h1 q hq1 (by omega)
           | some t =>
             obtain ⟨p', s', w'⟩ := t
-            obtain ⟨hp', hin2, hd⟩ := hs
-            refine ⟨hp', hin2, Or.inr (Or.inr ?_)⟩
-            rcases hd with ⟨hw, hpp, hss⟩ | ⟨h0, hw, hlt, hss, hno⟩ | ⟨_, hw, _⟩
-            · refine ⟨hin', rfl, hw, by rw [hpp]; exact hss, ?_, ?_⟩
-              · intro q h1 h2; omega
-              · intro q h1 h2; omega
-            · refine ⟨hin', rfl, hw, hss, ?_, ?_⟩
-              · intro q h1 h2; omega
-              · intro q hq1 hq2
-                by_cases hq : q = 0x8FF
-                · subst hq; rw [active_iff_max]; simp [h0]
-                · exact hno q (by omega) (by omega)
-            · cases hw
-      · simp only [hlast, if_false]
-        have hm' : skipMeasB (p - 1) w < n := by unfold skipMeasB at *; omega
-        obtain ⟨r, hr, hs⟩ := ih (p - 1) ((c.stat (p - 1)).subMax.toNat) w ⟨by omega, by omega⟩ hm'
-        refine ⟨r, hr, ?_⟩
-        cases r with
-        | none =>
-          obtain ⟨h0, h1, h2⟩ := hs
-          refine ⟨hin', ?_, h2⟩
-          intro q hq1 hq2
-          by_cases hq : q = p - 1
-          · subst hq; rw [active_iff_max]; simp [h0]
-          · exact h1 q (by omega) (by omega)
-        | some t =>
-          obtain ⟨p', s', w'⟩ := t
-          obtain ⟨hp', hin2, hd⟩ := hs
-          refine ⟨hp', hin2, ?_⟩
-          rcases hd with ⟨hw, hpp, hss⟩ | ⟨h0, hw, hlt, hss, hno⟩ | ⟨h0, hw, hw', hss, hno1, hno2⟩
-          · refine Or.inr (Or.inl ⟨hin', hw, by omega, by rw [hpp]; exact hss, ?_⟩)
-            intro q h1 h2; omega
-          · refine Or.inr (Or.inl ⟨hin', hw, by omega, hss, ?_⟩)
-            intro q hq1 hq2
-            by_cases hq : q = p - 1
-            · subst hq; rw [active_iff_max]; simp [h0]
-            · exact hno q (by omega) (by omega)
-          · refine Or.inr (Or.inr ⟨hin', hw, hw', hss, ?_, hno2⟩)
-            intro q hq1 hq2
-            by_cases hq : q = p - 1
-            · subst hq; rw [active_iff_max]; simp [h0]
-            · exact hno1 q (by omega) (by omega)
+            obtain ⟨hp', hld, hd⟩ := hs
+            refine ⟨hp', hld, ?_⟩
+            rcases hd with ⟨hw, hpp, hss, hir⟩ | ⟨_, _, _, hlt, _⟩ | ⟨h0, hw, hlt, hss, hir, hno⟩ |
+                ⟨h0, hw, hw', hss, hir, hno1, hno2⟩
+            · refine Or.inr (Or.inr (Or.inl ⟨hlv, hw, by omega, by rw [hpp]; exact hss, by rw [hpp, hss]; exact hir, ?_⟩))
+              intro q h1 h2; omega
+            · omega
+            · refine Or.inr (Or.inr (Or.inl ⟨hlv, hw, by omega, hss, hir, ?_⟩))
+              intro q hq1 hq2
+              by_cases hq : q = p - 1
+              · subst hq; exact leaveB_max_not_active h0
+              · exact hno q hq1 (by omega)
+            · refine Or.inr (Or.inr (Or.inr ⟨hlv, hw, hw', hss, hir, ?_, hno2⟩))
+              intro q hq1 hq2
+              by_cases hq : q = p - 1
+              · subst hq; exact leaveB_max_not_active h0
+              · exact hno1 q hq1 (by omega)
 
 theorem skipMeasB_lt {p : Int} (hp : PgOk p) (w : Bool) : skipMeasB p w < skipFuel := by
   unfold skipMeasB skipFuel PgOk at *
   cases w <;> simp <;> omega
-
 
 end Zvbi.Search
